@@ -790,6 +790,111 @@ pub fn nested_docs(rule: &RuleSpec, picks: &[(u16, u8)]) -> Vec<DObj> {
     docs
 }
 
+/// Everything about ONE field: 3-6 single-entry identifiers on the same field with different key
+/// modifiers (none, str, int, not) and pattern kinds, combined by chains with random negations and
+/// quantifiers, against documents that give the field every value kind.
+pub fn rule_same_field_focus() -> BoxedStrategy<RuleSpec> {
+    let entry = |field: &'static str| {
+        prop_oneof![
+            4 => ("[ab15]{1,2}", 0u8..5, any::<bool>()).prop_map(move |(n, k, ci)| {
+                let t = match k {
+                    0 => n.clone(),
+                    1 => format!("{n}*"),
+                    2 => format!("*{n}"),
+                    3 => format!("*{n}*"),
+                    _ => format!("?{n}"),
+                };
+                Entry { key: KeySpec::plain(field), val: ValSpec::Str(if ci { format!("i{t}") } else { t }) }
+            }),
+            3 => ("[ab15]{1,2}", 0u8..4, any::<bool>()).prop_map(move |(n, k, ci)| {
+                let t = match k {
+                    0 => n.clone(),
+                    1 => format!("{n}*"),
+                    2 => format!("*{n}*"),
+                    _ => format!("?{n}"),
+                };
+                Entry {
+                    key: KeySpec { modifier: KMod::Str, field: field.to_string() },
+                    val: ValSpec::Str(if ci { format!("i{t}") } else { t }),
+                }
+            }),
+            1 => small_int().prop_map(move |i| Entry { key: KeySpec::plain(field), val: ValSpec::Int(i) }),
+            1 => int_pattern().prop_map(move |p| Entry {
+                key: KeySpec { modifier: KMod::Int, field: field.to_string() },
+                val: ValSpec::Str(p),
+            }),
+            1 => "[ab15]{1,2}".prop_map(move |n| Entry {
+                key: KeySpec { modifier: KMod::Not, field: field.to_string() },
+                val: ValSpec::Str(n),
+            }),
+            1 => any::<bool>().prop_map(move |b| Entry { key: KeySpec::plain(field), val: ValSpec::Bool(b) }),
+        ]
+    };
+    (
+        prop::collection::vec((entry("f1"), prop::bool::weighted(0.15)), 3..=6),
+        0u8..10,
+        any::<u8>(),
+        0u64..=2,
+    )
+        .prop_map(|(entries, form, bits, n)| {
+            let names: Vec<String> = IDENT_NAMES_PLAIN.iter().take(entries.len()).map(|s| s.to_string()).collect();
+            let idents: Vec<(String, Body)> = names
+                .iter()
+                .cloned()
+                .zip(entries.into_iter().map(|(e, as_seq)| {
+                    if as_seq {
+                        Body::Seq(vec![Block(vec![e])])
+                    } else {
+                        Body::Map(Block(vec![e]))
+                    }
+                }))
+                .collect();
+            let lit = |i: usize| -> CondSpec {
+                let base = match (form, i % 3) {
+                    (8, 0) => CondSpec::Of(names[i].clone(), n),
+                    (8, 1) | (9, 0) => CondSpec::All(names[i].clone()),
+                    (9, 1) => CondSpec::Of(names[i].clone(), 1),
+                    _ => CondSpec::Ident(names[i].clone()),
+                };
+                let negate = match form {
+                    0 | 1 => false,
+                    2 | 3 => true,
+                    _ => (bits >> i) & 1 == 1,
+                };
+                if negate {
+                    CondSpec::Not(Box::new(base))
+                } else {
+                    base
+                }
+            };
+            let and = matches!(form, 0 | 2 | 4 | 6 | 8);
+            let mut c = lit(0);
+            for i in 1..names.len() {
+                c = if and {
+                    CondSpec::And(Box::new(c), Box::new(lit(i)))
+                } else {
+                    CondSpec::Or(Box::new(c), Box::new(lit(i)))
+                };
+            }
+            if form >= 6 && bits & 0x80 != 0 {
+                c = CondSpec::Not(Box::new(CondSpec::Paren(Box::new(c))));
+            }
+            RuleSpec { idents, cond: c }
+        })
+        .boxed()
+}
+
+/// Documents for same-field rules: the field with every value kind.
+pub fn same_field_docs(field: &str) -> Vec<DObj> {
+    let vals = vec![
+        DocVal::s("a"), DocVal::s("ab"), DocVal::s("b"), DocVal::s("1"), DocVal::s("5"), DocVal::s("15"), DocVal::s("A"), DocVal::s("xbx"),
+        DocVal::s(""), DocVal::Int(1), DocVal::Int(5), DocVal::Int(-1), DocVal::Int(15), DocVal::UInt(1), DocVal::UInt(5), DocVal::UInt(51),
+        DocVal::Float(1.0), DocVal::Float(1.5), DocVal::Bool(true), DocVal::Bool(false), DocVal::Null,
+        DocVal::arr(vec![DocVal::s("a"), DocVal::Int(5)]), DocVal::arr(vec![]), DocVal::obj(vec![("x", DocVal::s("a"))]),
+    ];
+    std::iter::once(DObj::default()).chain(vals.into_iter().map(|v| DObj(vec![(field.to_string(), v)]))).collect()
+}
+
 /// Wide or-groups: many entries on one field (around the optimiser's 256-entry matrix guard) or
 /// many distinct fields (matrix column keys beyond the ASCII range), as a sequence identifier.
 pub fn rule_wide() -> BoxedStrategy<RuleSpec> {
